@@ -80,6 +80,19 @@ def replay(ctx, prop, rp, built):
     return 1 if bad else 0
 
 
+def problem_category(p):
+    """which translated table a translator problem belongs to"""
+    if p.startswith("sequence ") or "into_stream" in p or p.startswith("trait Sequence"):
+        return "sequences"
+    if p.startswith("convert_dir"):
+        return "fileids"
+    if p.startswith("ErrorMessages") or p.startswith("no Display message") or p.startswith("constants.rs"):
+        return "errors"
+    if p.startswith("cannot read") or p.startswith("cannot parse") or p.startswith("translator "):
+        return "all"
+    return "structs"
+
+
 def main(argv):
     import argparse
     ap = argparse.ArgumentParser()
@@ -108,6 +121,10 @@ def main(argv):
         C.log(f"build: driver={ok_d} harness={ok_h} ({secs_h:.0f} s)")
         out = Outcome()
         broken = []   # names of broken obligations / ties
+        # a construct the translator cannot translate breaks the tie of the properties that consume that table, not of all
+        relevant = getattr(mod, "TRANSLATED", {"structs", "sequences", "errors", "fileids"})
+        other_problems = [p for p in problems if problem_category(p) not in relevant and problem_category(p) != "all"]
+        problems = [p for p in problems if p not in other_problems]
         if problems:
             broken += ["translator: " + p for p in problems]
         if proof["failed"]:
@@ -186,6 +203,7 @@ def main(argv):
         "theorems": [{"name": o["name"], "axioms": o["axioms"]} for o in obl],
         "broken_obligations": broken,
         "translator_problems": problems,
+        "translator_problems_in_tables_this_property_does_not_use": other_problems,
         "evaluations": out.evaluations,
         "distinct_nontrivial": len(out.nontrivial) if isinstance(out.nontrivial, set) else int(out.nontrivial),
         "rule": out.rule,
